@@ -20,7 +20,8 @@ from .. import scoresdrv as sd
 from . import c02
 
 PROP = "C03"
-PREFIXES = ("C03.",)
+# a threshold that is NaN / not a number, or an exception, at a target of the extreme family is a C03 matter too
+PREFIXES = ("C03.", "C02.shape_or_value", "C02.raised")
 EXTREME = [Fraction(-1, 2), Fraction(0), Fraction(1), Fraction(3, 2)]
 
 
